@@ -46,11 +46,12 @@ pub enum Kind {
     Arr,
     P,
     DB,
+    NT,
     Set,
 }
 
 impl Kind {
-    pub const ALL: [Kind; 18] = [
+    pub const ALL: [Kind; 19] = [
         Kind::D,
         Kind::R,
         Kind::L,
@@ -68,13 +69,14 @@ impl Kind {
         Kind::Arr,
         Kind::P,
         Kind::DB,
+        Kind::NT,
         Kind::Set,
     ];
     pub fn has_tok(self) -> bool {
-        matches!(self, Kind::D | Kind::R | Kind::L | Kind::LS | Kind::RB | Kind::SH | Kind::TSH | Kind::Dyn | Kind::P | Kind::DB)
+        matches!(self, Kind::D | Kind::R | Kind::L | Kind::LS | Kind::RB | Kind::SH | Kind::TSH | Kind::Dyn | Kind::P | Kind::DB | Kind::NT)
     }
     pub fn needs_trace(self) -> bool {
-        !matches!(self, Kind::L | Kind::LS | Kind::Str | Kind::TStr)
+        !matches!(self, Kind::L | Kind::LS | Kind::Str | Kind::TStr | Kind::NT)
     }
     /// number of strong slots that can be re-assigned after construction
     pub fn mutable_strong(self) -> usize {
@@ -197,6 +199,8 @@ pub enum Step {
     SetPacing { arena: u8, preset: u8 },
     MapRoot { arena: u8, fallible: bool, outcome: Outcome, ops: Vec<MutOp> },
     CloneHandle { h: u8 },
+    /// `dst.clone_from(&src)` on two live handles of the same payload type
+    CloneFromHandle { dst: u8, src: u8 },
     DropHandle { h: u8 },
     ArmTracePanic { k: u8 },
     /// the k-th destructor run by the next arena drop panics (fault injection for C04 / C11)
